@@ -159,6 +159,13 @@ func c10PublicAPI(r *Runner) {
 		{name: "linedirective", files: map[string]string{"types.go": "package linedirective\n\n" + c10Types + "func f(a, b *A) bool { return deriveEqual(a, b) }\n",
 			"y.go": "//line expr.y:2\npackage linedirective\n\nfunc g(a, b *B) bool { return deriveEqual(a, b) }\n", "expr.y": "%{\npackage linedirective\n%}\n%%\ntop: ;\n"}, flags: []string{"-autoname"},
 			expect: map[string]string{"y.go": "RENAMED"}},
+		// a renamed call at the start of a continuation line: the line break must survive
+		{name: "multiline", files: map[string]string{"a.go": fmt.Sprintf("package multiline\n\n"+c10Types+"func f(a, b *A, c, d *B) bool {\n\treturn deriveEqual(a, b) &&\n\t\tderiveEqual(c, d)\n}\n")}, flags: []string{"-autoname"},
+			expect: map[string]string{"a.go": "RENAMEDARGS:a, b|c, d"}},
+		// a rename that is only decided in a later generation pass (the argument of the first deriveSort is typed
+		// once deriveKeys exists): the user file is rewritten from a re-loaded AST and must keep every comment
+		{name: "latepass", files: map[string]string{"x.go": "// Package latepass has comments that must survive a rewrite.\npackage latepass\n\n// keys returns the sorted keys.\nfunc keys(m map[string]int) []string {\n\tks := deriveKeys(m) // typed only after a first pass\n\treturn deriveSort(ks)\n}\n\n// ints uses the same derive name for another argument type.\nfunc ints(xs []int) []int {\n\t// a comment inside the body\n\treturn deriveSort(xs)\n}\n"}, flags: []string{"-autoname"},
+			expect: map[string]string{"x.go": "RENAMEDARGS:ks|xs"}},
 	}
 	var rows []map[string]interface{}
 	for _, s := range scs {
@@ -206,6 +213,29 @@ func c10PublicAPI(r *Runner) {
 				}
 				continue
 			}
+			if want, ok := s.expect[n]; ok && strings.HasPrefix(want, "RENAMEDARGS:") {
+				// several derive calls, identified by their argument text: the file must be gofmt(original with, for
+				// each call, the identifier that now stands in front of that argument list)
+				content := a[strings.Index(a, "\x00")+1:]
+				cand := s.files[n]
+				changed := false
+				for _, arg := range strings.Split(strings.TrimPrefix(want, "RENAMEDARGS:"), "|") {
+					re := regexp.MustCompile(`(\w+)\(` + regexp.QuoteMeta(arg) + `\)`)
+					mo, mn := re.FindStringSubmatchIndex(cand), re.FindStringSubmatch(content)
+					if mo == nil || mn == nil {
+						cand = "CALL-NOT-FOUND " + arg
+						break
+					}
+					if cand[mo[2]:mo[3]] != mn[1] {
+						changed = true
+					}
+					cand = cand[:mo[2]] + mn[1] + cand[mo[3]:]
+				}
+				if !changed || gofmtSrc(cand) != content {
+					problems = append(problems, n+" is not gofmt(original with the renamed identifiers): comments or declarations lost or changed")
+				}
+				continue
+			}
 			problems = append(problems, "modified "+n)
 		}
 		for n := range before {
@@ -218,6 +248,36 @@ func c10PublicAPI(r *Runner) {
 		if len(problems) > 0 {
 			dirR := saveReplay(r.S, r.Spec.ID, rel, &Model{Harness: "publicapi_" + s.name}, strings.Join(problems, "; "))
 			r.violation(dirR, fmt.Sprintf("goderive %v on %s: %s", s.flags, s.name, strings.Join(problems, "; ")))
+		}
+	}
+	// a package that holds nothing but an old derived.gen.go, generated from a working directory that has a
+	// derived.gen.go of its own: that file belongs to another package and must not be touched
+	{
+		outer := filepath.Join(r.S.Repo, "vxfix/c10/outer")
+		os.MkdirAll(filepath.Join(outer, "p2"), 0o755)
+		os.WriteFile(filepath.Join(outer, "x.go"), []byte("package outer\n\nfunc f(a, b []int) bool { return deriveEqual(a, b) }\n"), 0o644)
+		runCmd(r.S.Repo, goEnv(), 2*time.Minute, r.S.Goderive, "./vxfix/c10/outer")
+		os.WriteFile(filepath.Join(outer, "p2", "derived.gen.go"), []byte("// Code generated by goderive DO NOT EDIT.\n\npackage p2\n"), 0o644)
+		before := snapshotDir(outer)
+		_, code, _ := runCmd(outer, goEnv(), 2*time.Minute, r.S.Goderive, "./p2")
+		after := snapshotDir(outer)
+		var problems []string
+		if _, had := before["derived.gen.go"]; had {
+			if a, ok := after["derived.gen.go"]; !ok {
+				problems = append(problems, "derived.gen.go of the working directory (another package) was deleted")
+			} else if a != before["derived.gen.go"] {
+				problems = append(problems, "derived.gen.go of the working directory (another package) was modified")
+			}
+		} else {
+			problems = append(problems, "setup: the outer package was not generated")
+		}
+		if after["x.go"] != before["x.go"] {
+			problems = append(problems, "x.go of the working directory was modified")
+		}
+		rows = append(rows, map[string]interface{}{"scenario": "onlyderived", "exit": code, "problems": problems})
+		if len(problems) > 0 {
+			dirR := saveReplay(r.S, r.Spec.ID, "vxfix/c10/outer", &Model{Harness: "publicapi_onlyderived"}, strings.Join(problems, "; "))
+			r.violation(dirR, "goderive ./p2 (a directory holding only an old derived.gen.go) run from another package's directory: "+strings.Join(problems, "; "))
 		}
 	}
 	r.Extra["public_api_scenarios"] = rows
